@@ -1,47 +1,63 @@
+(* Semantic engine (C16-C20): differential execution, inside Coq, of the original body under the
+   *specification interpreter* (WasmP.exec with spec = true: probes fired by the interpreter at the
+   semantically defined moments) against the body the implementation really emitted under the plain
+   interpreter; plus the two correspondence ties (flat mirror = observed, tree lowering = observed). *)
 From Coq Require Import List Arith NArith ZArith Bool Lia.
 Import ListNotations.
-From Orca Require Import Flat Lowering CheckLow Tree WasmP.
+From Orca Require Import Util Flat Lowering CheckLow Tree TreeLower WasmP.
 
 Record scase := mkS {
-  s_nparams : N; s_nres : nat; s_numlocals : N;
-  s_entry : list fop; s_exit : list fop;
-  s_body : list fop; s_plan : list (nat * mode * list fop);
-  s_obs_body : list fop; s_obs_numlocals : N;
-  s_args : list (list Z) }.
+  s_l : lcase;                 (* nparams, locals, entry/exit, body, plan, observation (see CheckLow) *)
+  s_nres : nat;                (* number of i32 results of the function *)
+  s_valid : bool;              (* the real validator accepted the instrumented module *)
+  s_args : list (list Z) }.    (* argument vectors *)
 
 Inductive verdict := VSame | VDiff | VFuel | VBad (why : N).
 
 Definition zeros (n : N) : list Z := repeat 0%Z (N.to_nat n).
 
-Definition same_result (nres : nat) (a b : outcome) : verdict :=
+Definition same_result (keep : Z -> bool) (nres : nat) (a b : outcome) : verdict :=
+  let tr c := filter keep (trace c) in
   match a, b with
   | OReturn ca, OReturn cb =>
       if list_eqb Z.eqb (firstn nres (stack ca)) (firstn nres (stack cb))
-         && list_eqb Z.eqb (globals ca) (globals cb) && list_eqb Z.eqb (trace ca) (trace cb)
+         && list_eqb Z.eqb (globals ca) (globals cb) && list_eqb Z.eqb (tr ca) (tr cb)
       then VSame else VDiff
   | OTrap ca, OTrap cb =>
-      if list_eqb Z.eqb (globals ca) (globals cb) && list_eqb Z.eqb (trace ca) (trace cb) then VSame else VDiff
+      if list_eqb Z.eqb (globals ca) (globals cb) && list_eqb Z.eqb (tr ca) (tr cb) then VSame else VDiff
   | OFuel, _ | _, OFuel => VFuel
   | OUnsupported, _ | _, OUnsupported => VBad 1
   | ONormal _, _ | _, ONormal _ | OBr _ _ _, _ | _, OBr _ _ _ => VBad 2
   | _, _ => VDiff
   end.
 
-Definition FUEL := 4000%nat.
+Definition FUEL := Nat.mul 60 100.
 
-Definition check_one (c : scase) (args : list Z) : verdict :=
-  match parse_body (s_body c), parse_body (s_obs_body c),
-        apply_plan false (s_plan c) (map (fun o => (o, no_flags)) (s_body c)) false with
-  | Some (t, fe), Some (t', fe'), Some (fb, _) =>
-      let ftypes := [(1, 0); (N.to_nat (s_nparams c), s_nres c); (0, s_nres c)]%nat in
+Definition flagged_body (c : scase) : option (list (fop * flags)) :=
+  match apply_plan false (c_plan (s_l c)) (map (fun o => (o, no_flags)) (c_body (s_l c))) false with
+  | Some (fb, _) => Some fb
+  | None => None
+  end.
+Definition flags_fn (fb : list (fop * flags)) (i : nat) : flags := snd (nth i fb (FEnd, no_flags)).
+
+Definition ftypes_of (c : scase) : list (nat * nat) :=
+  [(1, 0); (N.to_nat (c_nparams (s_l c)), s_nres c); (0, s_nres c)]%nat.
+
+Definition obs_body (c : scase) : list fop := match c_obs (s_l c) with Some (b, _) => b | None => MALFORMED end.
+Definition obs_numlocals (c : scase) : N :=
+  match c_obs (s_l c) with Some (_, g) => fold_left (fun a x => (a + fst x)%N) g 0%N | None => 0%N end.
+
+Definition check_one (keep : Z -> bool) (c : scase) (args : list Z) : verdict :=
+  let l := s_l c in
+  match parse_body (c_body l), parse_body (obs_body c), flagged_body c with
+  | Some (t, fe), Some (t', fe'), Some fb =>
       (* the code files the entry probes *after* the user's before-probes of instruction 0 *)
-      let flags_at i := let f := snd (nth i fb (FEnd, no_flags)) in
-                        if Nat.eqb i 0 then w_before (s_entry c) f else f in
-      let c0 := mkC (args ++ zeros (s_numlocals c)) [0%Z] [] [] in
-      let c0' := mkC (args ++ zeros (s_obs_numlocals c)) [0%Z] [] [] in
-      same_result (s_nres c)
-        (exec_fn ftypes flags_at [] (s_exit c) true FUEL t fe c0)
-        (exec_fn ftypes (fun _ => no_flags) [] [] false FUEL t' fe' c0')
+      let flags_at i := let f := flags_fn fb i in if Nat.eqb i 0 then w_before (c_entry l) f else f in
+      let c0 := mkC (args ++ zeros (c_numlocals l)) [0%Z] [] [] in
+      let c0' := mkC (args ++ zeros (obs_numlocals c)) [0%Z] [] [] in
+      same_result keep (s_nres c)
+        (exec_fn (ftypes_of c) flags_at [] (c_exit l) true FUEL t fe c0)
+        (exec_fn (ftypes_of c) (fun _ => no_flags) [] [] false FUEL t' fe' c0')
   | None, _, _ => VBad 10
   | _, None, _ => VBad 11
   | _, _, None => VBad 12
@@ -54,17 +70,51 @@ Definition worst (a b : verdict) : verdict :=
   | VFuel, _ | _, VFuel => VFuel
   | _, _ => VSame
   end.
-Definition check (c : scase) : verdict := fold_left (fun v a => worst v (check_one c a)) (s_args c) VSame.
+Definition check (keep : Z -> bool) (c : scase) : verdict :=
+  fold_left (fun v a => worst v (check_one keep c a)) (s_args c) VSame.
 
-Fixpoint collect (i : N) (cs : list scase) (diff fuel bad : list N) : list N * list N * list N :=
-  match cs with
-  | [] => (rev diff, rev fuel, rev bad)
-  | c :: cs' =>
-      match check c with
-      | VSame => collect (i + 1) cs' diff fuel bad
-      | VDiff => collect (i + 1) cs' (i :: diff) fuel bad
-      | VFuel => collect (i + 1) cs' diff (i :: fuel) bad
-      | VBad _ => collect (i + 1) cs' diff fuel (i :: bad)
+(* ---------- tie of the tree-level lowering (object of the simulation theorem) to the implementation ---------- *)
+Fixpoint instr_no_branch_sa (F : nat -> flags) (fuel : nat) (x : instr) : bool :=
+  match fuel with
+  | O => false
+  | S f =>
+      match x with
+      | IPlain i (FBr _) | IPlain i (FBrIf _) | IPlain i (FBrTable _ _) | IPlain i (FBrOn _ _) => is_nil (f_sa (F i))
+      | IPlain _ _ => true
+      | IBlock _ _ _ b | ILoop _ _ _ b => forallb (instr_no_branch_sa F f) b
+      | IIf _ _ _ _ t e => forallb (instr_no_branch_sa F f) t && forallb (instr_no_branch_sa F f) e
       end
   end.
-Definition report (cs : list scase) := (N.of_nat (length cs), collect 0 cs [] [] []).
+
+Definition blocklike (i : instr) : bool := match i with IPlain _ _ => false | _ => true end.
+(* D15 shape: block-exit on an `if` whose then-arm contains a block-like instruction *)
+Fixpoint instr_no_d15 (F : nat -> flags) (fuel : nat) (x : instr) : bool :=
+  match fuel with
+  | O => false
+  | S f =>
+      match x with
+      | IPlain _ _ => true
+      | IBlock _ _ _ b | ILoop _ _ _ b => forallb (instr_no_d15 F f) b
+      | IIf i _ _ _ t e =>
+          negb (negb (is_nil (f_bx (F i))) && existsb blocklike t)
+          && forallb (instr_no_d15 F f) t && forallb (instr_no_d15 F f) e
+      end
+  end.
+
+Definition nonreplacing (f : flags) : bool := is_none (f_alt f) && is_none (f_balt f).
+
+(* inside the domain of Sim.sim_closed (and outside D15): the tree lowering must be what was emitted *)
+Definition tree_tie (c : scase) : bool :=
+  let l := s_l c in
+  match parse_body (c_body l), flagged_body c with
+  | Some (t, fe), Some fb =>
+      let F := flags_fn fb in
+      let n := S (length (c_body l)) in
+      if is_nil (c_entry l) && is_nil (c_exit l) && forallb (fun x => nonreplacing (snd x)) fb
+         && forallb (instr_no_branch_sa F n) t && forallb (instr_no_d15 F n) t
+      then list_eqb fop_eqb (flat (flat_map (lower F) t) ++ f_before (F fe) ++ [FEnd]) (obs_body c)
+      else true
+  | _, _ => true
+  end.
+
+Definition agree_sem (c : scase) : bool := agree (s_l c) && tree_tie c.
